@@ -21,7 +21,12 @@ SC_NOTIFY_BINARY), see tools/c2g/ledgerlib.py for the events and what is refused
   * notify_recursive_ledger_b (c)  - from `sendbuf = sc_array_new (..)` to the end of the branch: every sc_array_new / init /
         reset / destroy / resize / push / sc_notify_merge / struct assignment on array, sendbuf, recvbuf, morebuf, on every
         path (c i = value of the i-th branch condition; the conditions themselves are emitted as .._c<i> for the reader)
-coq/C10/LedgerProofs.v proves that the generated event list is balanced for EVERY valuation of the conditions."""
+  * hash_resize_prefix_b / hash_resize_ledger_b (c) - sc_hash_maybe_resize (src/sc_containers.c): the declarations and the decision
+        (old_slots = hash->slots), then from `new_slots = sc_array_new (..)` to the end
+  * hash_new_ledger_b, hash_destroy_ledger_b, hash_unlink_destroy_ledger_b, hash_array_new_ledger_b, hash_array_destroy_ledger_b,
+        hash_array_rip_ledger_b (src/sc_containers.c), keyvalue_new_ledger_b, keyvalue_destroy_ledger_b (src/sc_keyvalue.c): whole bodies
+coq/C10/LedgerProofs.v proves that the generated event lists are balanced for EVERY valuation of the conditions (the
+create / destroy pairs as concatenations new ++ destroy)."""
 import os, re
 
 
@@ -126,17 +131,18 @@ def register(GROUPS, c2g, incs, REPO, HERE, STRUCTS, Group):
     def gen_ledger(tmp):
         import ledgerlib as ll
         g = Group("LedgerC10")
+        g.text += ll.PRELUDE
+        # ---- 1. one level of the binary notify recursion
         f = os.path.join(REPO, "src", "sc_notify.c")
         sim = os.path.join(os.path.dirname(HERE), "simmpi")
         objs = c2g.clang_ast(f, "sc_notify_recursive", incs(tmp) + [sim], defs=("SC_ENABLE_MPI",))
         F = c2g.find_function(objs, "sc_notify_recursive")
-        body = [c for c in F["inner"] if c.get("kind") == "CompoundStmt"][0]
-        # outside the `if (length > 1)` statement the function must not touch any array
-        ifs = [s for s in body.get("inner", []) if s.get("kind") == "IfStmt"]
+        body = ll.function_body(F)
+        ifs = [s for s in body if s.get("kind") == "IfStmt"]
         if len(ifs) != 1 or "length" not in sl.refs(ifs[0]["inner"][0]) or len(ifs[0]["inner"]) > 2 and \
                 sl.find_nodes(ifs[0]["inner"][2], lambda n: n.get("kind") in ("CallExpr", "BinaryOperator", "UnaryOperator")):
             raise c2g.Unsupported("sc_notify_recursive: body is not a single `if (length > 1) { .. }` with an empty else branch")
-        rest = [s for s in body.get("inner", []) if s is not ifs[0]]
+        rest = [s for s in body if s is not ifs[0]]
         t, i = ll.emit_ledger(rest, "notify_recursive_outside", "sc_notify_recursive")
         if not t.rstrip().endswith(":=\n[]."):
             raise c2g.Unsupported("sc_notify_recursive: array operations outside the `length > 1` branch")
@@ -148,7 +154,6 @@ def register(GROUPS, c2g, incs, REPO, HERE, STRUCTS, Group):
         if not cut:
             raise c2g.Unsupported("sc_notify_recursive: no sc_array_new / sc_array_init in the recursion branch")
         cut = cut[0]
-        g.text += ll.PRELUDE
         t, i = ll.emit_ledger(then[:cut], "notify_recursive_prefix", "sc_notify_recursive", self_calls=("sc_notify_recursive",),
                               comment="sc_notify_recursive, branch `length > 1`, statements in front of the first sc_array_new: "
                                       "the recursive call (which hands the caller's array on) and the computation of peer / peer2")
@@ -157,6 +162,42 @@ def register(GROUPS, c2g, incs, REPO, HERE, STRUCTS, Group):
                               comment="sc_notify_recursive, branch `length > 1`, from the first sc_array_new to the end of the branch: "
                                       "ownership events on array (the caller's), sendbuf, recvbuf (heap), morebuf (local struct)")
         g.add(t, i)
-        return g, [f]
+
+        # ---- 2. the containers: rehash of a hash table, create / destroy pairs
+        fc = os.path.join(REPO, "src", "sc_containers.c")
+        cobjs = {}
+
+        def fn(name, file=fc):
+            if (file, name) not in cobjs:
+                cobjs[(file, name)] = c2g.find_function(c2g.clang_ast(file, name, incs(tmp)), name)
+            return cobjs[(file, name)]
+
+        body = ll.function_body(fn("sc_hash_maybe_resize"))
+        cut = [k for k, s_ in enumerate(body) if s_.get("kind") != "DeclStmt" and sl.find_nodes(s_, lambda n: sl.callee_name(n) in ll.NEW + ll.INIT + ll.ALLOC)]
+        if not cut:
+            raise c2g.Unsupported("sc_hash_maybe_resize: no sc_array_new in the body")
+        cut = cut[0]
+        t, i = ll.emit_ledger(body[:cut], "hash_resize_prefix", "sc_hash_maybe_resize", allow_return=True,
+                              comment="sc_hash_maybe_resize up to (excluding) the allocation of the new slot array: declarations (old_slots = hash->slots) and "
+                                      "the decision whether to resize; its `return` statements are dropped (nothing is owned differently on those paths)")
+        g.add(t, i)
+        t, i = ll.emit_ledger(body[cut:], "hash_resize_ledger", "sc_hash_maybe_resize",
+                              comment="sc_hash_maybe_resize from the allocation of the new slot array to the end: ownership events on hash->slots, old_slots, new_slots")
+        g.add(t, i)
+        for name, gname, cm in [("sc_hash_new", "hash_new_ledger", "sc_hash_new: hash (SC_ALLOC), hash->allocator (own memory pool or the caller's), hash->slots"),
+                                ("sc_hash_destroy", "hash_destroy_ledger", "sc_hash_destroy"),
+                                ("sc_hash_unlink_destroy", "hash_unlink_destroy_ledger", "sc_hash_unlink_destroy"),
+                                ("sc_hash_array_new", "hash_array_new_ledger", "sc_hash_array_new: had (SC_ALLOC_ZERO) with the hash array embedded, hash_array->a (embedded array structure), hash_array->h (sc_hash_new)"),
+                                ("sc_hash_array_destroy", "hash_array_destroy_ledger", "sc_hash_array_destroy"),
+                                ("sc_hash_array_rip", "hash_array_rip_ledger", "sc_hash_array_rip: the array structure is copied to the caller's `rip`, everything else is freed")]:
+            t, i = ll.emit_ledger(ll.function_body(fn(name)), gname, name, comment=cm,
+                                  opaque=("hash", "hash->allocator", "allocator", "hash_array", "hash_array->h", "hash_array->internal_data", "had"))
+            g.add(t, i)
+        fk = os.path.join(REPO, "src", "sc_keyvalue.c")
+        for name, gname in [("sc_keyvalue_new", "keyvalue_new_ledger"), ("sc_keyvalue_destroy", "keyvalue_destroy_ledger")]:
+            t, i = ll.emit_ledger(ll.function_body(fn(name, fk)), gname, name, comment=name + ": kv (SC_ALLOC), kv->hash (sc_hash_new), kv->value_allocator (sc_mempool_new)",
+                                  opaque=("kv", "kv->hash", "kv->value_allocator"))
+            g.add(t, i)
+        return g, [f, fc, fk]
 
     GROUPS["LedgerC10"] = gen_ledger
